@@ -12,6 +12,10 @@ type FileDisk struct {
 }
 
 func NewFileDisk(path string, numBlocks uint64) (FileDisk, error) {
+	if numBlocks > (1<<63-1)/BlockSize {
+		// byte offsets are int64; beyond this they would wrap and alias blocks
+		return FileDisk{}, fmt.Errorf("disk of %d blocks is too large", numBlocks)
+	}
 	fd, err := unix.Open(path, unix.O_RDWR|unix.O_CREAT, 0666)
 	if err != nil {
 		return FileDisk{}, err
